@@ -12,12 +12,20 @@ func main() {
 	if err != nil {
 		panic(err)
 	}
-	s := p.Selectors()
-	ls := p.Locksets(s.Runner)
 	for _, f := range p.Funcs {
 		if p.FuncKey(f) == os.Args[1] {
-			fmt.Println("root:", ls.IsRoot(f), "entry:", ls.EntryOf(f))
-			fmt.Print(ls.Dump(f))
+			f.WriteTo(os.Stdout)
+			a := &pcv.LinAnalysis{P: p, Fn: f, Assume: []pcv.Lin{pcv.LE(pcv.TConst(0), pcv.TVar(pcv.CellLen("p0.buffer")))}}
+			a.Run()
+			for _, o := range a.Obligations {
+				fmt.Println(p.InstrPos(o.Instr), o.What, o.OK)
+				for _, c := range o.Cons {
+					fmt.Println("   need", c, o.State.Entails(c))
+				}
+				for _, c := range o.State.Cons {
+					fmt.Println("   have", c)
+				}
+			}
 		}
 	}
 }
